@@ -36,13 +36,18 @@ class _LoadAndSave:
     customize the behavior if needed (for instance, to introduce additional locks).
     """
 
-    def __init__(self, collection):
+    def __init__(self, collection, load=True):
         self._collection = collection
+        # Destructive operations that replace all data of a collection do not
+        # need to load first, but must still acquire the same locks in the same
+        # order as all other write operations.
+        self._load = load
 
     def __enter__(self):
         self._collection._thread_lock.__enter__()
         try:
-            self._collection._load()
+            if self._load:
+                self._collection._load()
         except BaseException as error:
             # __exit__ is not called when __enter__ raises, so the lock must be
             # released here or it would stay held forever.
@@ -195,6 +200,7 @@ class SyncedCollection(Collection):
             self._root = None
             self._suspend_sync = _CounterContext()
             self._load_and_save = self._LoadSaveType(self)
+            self._save_only = self._LoadSaveType(self, load=False)
 
         if self._supports_threading:
             with self._cls_lock:
